@@ -78,6 +78,9 @@ func ToGeoJSON(g geom.Geom) (*Geometry, error) {
 			Coordinates: pointsssCoordinates(pathsList),
 		}, nil
 	default:
+		if g == nil {
+			return nil, &UnsupportedGeometryError{"<nil>"}
+		}
 		return nil, &UnsupportedGeometryError{reflect.TypeOf(g).String()}
 	}
 }
